@@ -100,7 +100,18 @@ pub fn bracket_meaning(c: &Ctx, s: &str) -> Option<TT> {
 
 /// Reads the DOT text (as the sorted lines joined by " ; ") back into functions. Returns the meaning of each
 /// root r0..r{k-1} and the list of declared decision nodes (with multiplicity).
-pub fn dot_meaning(c: &Ctx, text: &str, k: usize) -> Result<(Vec<TT>, Vec<u32>), String> {
+/// The DOT text as parsed records: node labels, then / else edges (else edges with their complement mark; target 0 = the
+/// constant false), root declarations and root edges.
+pub struct DotGraph {
+    pub var: HashMap<u32, u32>,
+    pub declared: Vec<u32>,
+    pub high: HashMap<u32, Vec<u32>>,
+    pub low: HashMap<u32, Vec<(u32, bool)>>,
+    pub roots: HashMap<usize, Vec<(u32, bool)>>,
+    pub root_decl: Vec<usize>,
+}
+
+pub fn dot_parse(text: &str) -> Result<DotGraph, String> {
     let mut var: HashMap<u32, u32> = HashMap::new();
     let mut declared: Vec<u32> = Vec::new();
     let mut high: HashMap<u32, Vec<u32>> = HashMap::new();
@@ -165,6 +176,11 @@ pub fn dot_meaning(c: &Ctx, text: &str, k: usize) -> Result<(Vec<TT>, Vec<u32>),
         }
         return Err(format!("unknown line: {}", line));
     }
+    Ok(DotGraph { var, declared, high, low, roots, root_decl })
+}
+
+pub fn dot_meaning(c: &Ctx, text: &str, k: usize) -> Result<(Vec<TT>, Vec<u32>), String> {
+    let DotGraph { var, declared, high, low, roots, mut root_decl } = dot_parse(text)?;
     fn eval(c: &Ctx, id: u32, var: &HashMap<u32, u32>, high: &HashMap<u32, Vec<u32>>, low: &HashMap<u32, Vec<(u32, bool)>>, memo: &mut HashMap<u32, TT>, depth: u32) -> Result<TT, String> {
         if id == 1 {
             return Ok(c.one());
